@@ -218,10 +218,10 @@ def get_Renyi_entropy(rho:np.ndarray|torch.Tensor, alpha:float):
     '''
     assert (alpha!=1) and (alpha>0)
     if isinstance(rho, torch.Tensor):
-        EVL = torch.linalg.eigvalsh(rho)
+        EVL = torch.clamp(torch.linalg.eigvalsh(rho), min=0) #a zero eigenvalue may come out as -1e-17
         ret = torch.log((EVL**alpha).sum()) / (1-alpha)
     else:
-        EVL = np.linalg.eigvalsh(rho)
+        EVL = np.maximum(np.linalg.eigvalsh(rho), 0) #a zero eigenvalue may come out as -1e-17
         ret = np.log((EVL**alpha).sum()) / (1-alpha)
     return ret
 
